@@ -1,4 +1,5 @@
 import Got.Lemmas.CodecRoundtrip
+import Got.Lemmas.CodecAstBytes
 /-
 C12 — decoding arbitrary bytes with the iox readers is total, in-bounds and allocation-bounded.
 
@@ -136,3 +137,139 @@ theorem C12_seq_all (buf : List Byte) (ops : List Op) (pos : Nat) (h : pos ≤ b
       exact ⟨this.1, by omega, this.2.2.1, by omega⟩
 
 example : (readSeq [2#8, 0x61#8, 0x62#8, 0xff#8] 0 [.str, .i16, .byte, .byte]).map (·.pos) = [3, 3, 4, 4] := by decide
+/-! ## the translated source (translator tie)
+
+`Got.Generated.AstIox` holds the MiniGoBytes terms (Got/Model/MiniGoBytes.lean) that tools/srcfacts/minigo_codec.go regenerates
+from /repo/iox/octets_*.go on every run; `run table "<Type>.<Method>" fuel args ⟨buffer, position, alloc⟩` interprets the
+generated term.  The theorems below are re-checked against what the code says now. -/
+
+open Got.Generated.AstIox in
+/-- every method the translator is pointed at is inside the MiniGoBytes fragment (else: empty body + a note naming the
+    construct, and this fails) -/
+theorem C12_translation_in_fragment : notes.filter (fun p => p.2 != "ok") = [] := by decide
+
+section translated
+open Got.Model.MiniGoBytes (run St)
+open Got.Generated.AstIox Got.Lemmas.CodecAst
+
+/-- interpreting the translated `OctetsReader.Read7BitEncodedInt` on ANY bytes at ANY position gives the model's outcome
+    (value / error identity), position and allocation — the loop with the variable shift, the error propagation of the
+    nested `ReadByte` calls through the function table, and the fifth-byte check -/
+theorem C12_translated_source_Read7BitEncodedInt_refines_model (buf : List (BitVec 8)) (pos a : Nat) (fuel : Nat)
+    (hf : 90 ≤ fuel) :
+    run table "OctetsReader.Read7BitEncodedInt" fuel [] ⟨buf, pos, a⟩ =
+      some (readOut (.bv 32 true) (.bv 32 true 0) ⟨buf, pos, a⟩ (read7 buf pos)) :=
+  r_read7_ast buf pos a fuel hf
+
+/-- the fixed-width readers of the translated source, on any bytes -/
+theorem C12_translated_source_fixed_readers_refine_model (buf : List (BitVec 8)) (pos a : Nat) (fuel : Nat)
+    (hf : 10 ≤ fuel) :
+    run table "OctetsReader.ReadBool" fuel [] ⟨buf, pos, a⟩ =
+        some (readOut .bool (.bool false) ⟨buf, pos, a⟩ (readBool buf pos)) ∧
+    run table "OctetsReader.ReadByte" fuel [] ⟨buf, pos, a⟩ =
+        some (readOut (.bv 8 false) (.bv 8 false 0) ⟨buf, pos, a⟩ (readByte buf pos)) ∧
+    run table "OctetsReader.ReadInt16" fuel [] ⟨buf, pos, a⟩ =
+        some (readOut (.bv 16 true) (.bv 16 true 0) ⟨buf, pos, a⟩ (readInt16 buf pos)) ∧
+    run table "OctetsReader.ReadInt32" fuel [] ⟨buf, pos, a⟩ =
+        some (readOut (.bv 32 true) (.bv 32 true 0) ⟨buf, pos, a⟩ (readInt32 buf pos)) ∧
+    run table "OctetsReader.ReadInt64" fuel [] ⟨buf, pos, a⟩ =
+        some (readOut (.bv 64 true) (.bv 64 true 0) ⟨buf, pos, a⟩ (readInt64 buf pos)) :=
+  ⟨r_readBool_ast buf pos a fuel hf, r_readByte_ast buf pos a fuel (by omega), r_readInt16_ast buf pos a fuel (by omega),
+    r_readInt32_ast buf pos a fuel (by omega), r_readInt64_ast buf pos a fuel (by omega)⟩
+
+/-- **The property, stated of the translated source itself.** On arbitrary bytes and any start position inside them the
+    translated `Read7BitEncodedInt` never panics and never runs out of fuel: it returns a value with `nil` or the zero
+    value with ErrNotEnoughData / ErrBad7BitInt, leaves the buffer alone, allocates nothing, and the cursor ends between
+    where it started and the end of the input, at most five bytes further. -/
+theorem C12_translated_source_Read7BitEncodedInt_total_inbounds (buf : List (BitVec 8)) (pos a : Nat) (fuel : Nat)
+    (hf : 90 ≤ fuel) (hp : pos ≤ buf.length) :
+    ∃ (v : BitVec 32) (e : Option Got.Model.MiniGoBytes.Err) (p : Nat),
+      run table "OctetsReader.Read7BitEncodedInt" fuel [] ⟨buf, pos, a⟩ =
+        some (.ret [.bv 32 true v, .err e] [] ⟨buf, (p : Int), a⟩) ∧
+      pos ≤ p ∧ p ≤ buf.length ∧ p ≤ pos + 5 ∧
+      (e = none ∨ (v = 0 ∧ (e = some .NotEnoughData ∨ e = some .Bad7BitInt))) := by
+  have b := read7_bound buf pos hp
+  rw [r_read7_ast buf pos a fuel hf]
+  cases hr : read7 buf pos with
+  | mk out p al =>
+    rw [hr] at b
+    have hal : al = 0 := b.alloc
+    subst hal
+    cases out with
+    | ok v => exact ⟨v, none, p, by simp [readOut], b.mono, b.inb, b.le, Or.inl rfl⟩
+    | err e =>
+      refine ⟨0, some (cv e), p, by simp [readOut], b.mono, b.inb, b.le, Or.inr ⟨rfl, ?_⟩⟩
+      rcases b.errpos e rfl with h | h <;> subst h <;> simp [cv]
+    | crash => exact absurd rfl b.nocrash
+
+/-- the same for the fixed-width `ReadInt32` of the translated source: no panic for any bytes, a failure consumes
+    nothing -/
+theorem C12_translated_source_ReadInt32_total_inbounds (buf : List (BitVec 8)) (pos a : Nat) (fuel : Nat)
+    (hf : 10 ≤ fuel) :
+    (pos + 4 ≤ buf.length → ∃ v, run table "OctetsReader.ReadInt32" fuel [] ⟨buf, pos, a⟩ =
+        some (.ret [.bv 32 true v, .err none] [] ⟨buf, ((pos + 4 : Nat) : Int), a⟩)) ∧
+    (¬ pos + 4 ≤ buf.length → run table "OctetsReader.ReadInt32" fuel [] ⟨buf, pos, a⟩ =
+        some (.ret [.bv 32 true 0, .err (some .NotEnoughData)] [] ⟨buf, (pos : Int), a⟩)) := by
+  rw [r_readInt32_ast buf pos a fuel (by omega)]
+  constructor
+  · intro h
+    rw [readInt32_ok buf pos h]
+    simp only [readOut]
+    exact ⟨_, rfl⟩
+  · intro h
+    rw [readInt32_err buf pos h]
+    simp [readOut, cv]
+
+/-- non-vacuity: a truncated group and an over-long group, run on the generated term -/
+example : run table "OctetsReader.Read7BitEncodedInt" 100 [] ⟨[0x80#8, 0x80#8], 0, 0⟩ =
+    some (.ret [.bv 32 true 0#32, .err (some .NotEnoughData)] [] ⟨[0x80#8, 0x80#8], 2, 0⟩) := by
+  have h := C12_translated_source_Read7BitEncodedInt_refines_model [0x80#8, 0x80#8] 0 0 100 (by omega)
+  rw [show read7 [0x80#8, 0x80#8] 0 = ⟨.err .NotEnoughData, 2, 0⟩ by decide] at h
+  simpa [readOut, cv] using h
+
+example : run table "OctetsReader.Read7BitEncodedInt" 100 [] ⟨[0x80#8, 0x80#8, 0x80#8, 0x80#8, 0x10#8], 0, 0⟩ =
+    some (.ret [.bv 32 true 0#32, .err (some .Bad7BitInt)] [] ⟨[0x80#8, 0x80#8, 0x80#8, 0x80#8, 0x10#8], 5, 0⟩) := by
+  have h := C12_translated_source_Read7BitEncodedInt_refines_model [0x80#8, 0x80#8, 0x80#8, 0x80#8, 0x10#8] 0 0 100 (by omega)
+  rw [show read7 [0x80#8, 0x80#8, 0x80#8, 0x80#8, 0x10#8] 0 = ⟨.err .Bad7BitInt, 5, 0⟩ by decide] at h
+  simpa [readOut, cv] using h
+
+/-- interpreting the translated `OctetsReader.ReadBytes` / `ReadString` on ANY bytes gives the model's outcome, position
+    and ghost allocation (`make([]byte, size)` is counted by the interpreter) -/
+theorem C12_translated_source_ReadBytes_refines_model (buf : List (BitVec 8)) (pos a : Nat) (fuel : Nat)
+    (hf : 130 ≤ fuel) (hp : pos ≤ buf.length) :
+    run table "OctetsReader.ReadBytes" fuel [] ⟨buf, pos, a⟩ =
+        some (readOut .bytes (.bytes []) ⟨buf, pos, a⟩ (readBytes buf pos)) ∧
+    run table "OctetsReader.ReadString" fuel [] ⟨buf, pos, a⟩ =
+        some (readOut .bytes (.bytes []) ⟨buf, pos, a⟩ (readString buf pos)) :=
+  ⟨r_readBytes_ast buf pos a fuel (by omega) hp, r_readString_ast buf pos a fuel hf hp⟩
+
+/-- **The property, stated of the translated source itself (length-prefixed values).** On arbitrary bytes and any start
+    position inside them the translated `ReadBytes` never panics and never runs out of fuel; it returns a byte slice with
+    `nil` or an empty result with an iox error; the buffer is untouched, the cursor ends between its start and the end
+    of the input, and the bytes passed to `make` during the call are at most the input that was left — whatever the
+    length prefix announces. -/
+theorem C12_translated_source_ReadBytes_total_inbounds_alloc (buf : List (BitVec 8)) (pos a : Nat) (fuel : Nat)
+    (hf : 130 ≤ fuel) (hp : pos ≤ buf.length) :
+    ∃ (data : List (BitVec 8)) (e : Option Got.Model.MiniGoBytes.Err) (p al : Nat),
+      run table "OctetsReader.ReadBytes" fuel [] ⟨buf, pos, a⟩ =
+        some (.ret [.bytes data, .err e] [] ⟨buf, (p : Int), a + al⟩) ∧
+      pos ≤ p ∧ p ≤ buf.length ∧ al ≤ buf.length - pos ∧ (e ≠ none → data = []) := by
+  have g := (readBytes_good buf pos hp).1
+  rw [r_readBytes_ast buf pos a fuel (by omega) hp]
+  cases hr : readBytes buf pos with
+  | mk out p al =>
+    rw [hr] at g
+    cases out with
+    | ok v => exact ⟨v, none, p, al, by simp [readOut], g.mono, g.inb, g.alloc, by simp⟩
+    | err e => exact ⟨[], some (cv e), p, al, by simp [readOut], g.mono, g.inb, g.alloc, by simp⟩
+    | crash => exact absurd rfl g.nocrash
+
+/-- non-vacuity, the hostile prefix of the fixed defect (announces 2^27 bytes, four bytes of input) run on the generated
+    term: ErrNotEnoughData and nothing allocated -/
+example : run table "OctetsReader.ReadBytes" 200 [] ⟨[0x80#8, 0x80#8, 0x80#8, 0x40#8], 0, 0⟩ =
+    some (.ret [.bytes [], .err (some .NotEnoughData)] [] ⟨[0x80#8, 0x80#8, 0x80#8, 0x40#8], 4, 0⟩) := by
+  have h := (C12_translated_source_ReadBytes_refines_model [0x80#8, 0x80#8, 0x80#8, 0x40#8] 0 0 200 (by omega) (by simp)).1
+  rw [show readBytes [0x80#8, 0x80#8, 0x80#8, 0x40#8] 0 = ⟨.err .NotEnoughData, 4, 0⟩ by decide] at h
+  simpa [readOut, cv] using h
+
+end translated
